@@ -78,6 +78,21 @@ let parse_time_ml (s : string) : BigZ.t option =
 let parse_time (s : char list) : M.z option =
   match parse_time_ml (string_of_chars s) with Some z -> Some (coqz_of_z z) | None -> None
 
+(* ---- the instance of the abstract literal spelling: how the harness (api.go numText) writes a number m * 10^e that is not a
+   plain integer literal: positional for -20 <= e < 0, else mantissa + exponent *)
+let spell_ml (m : BigZ.t) (e : int) : string =
+  if e < 0 && e >= -20 then begin
+    let neg = BigZ.sign m < 0 in
+    let d = ref (BigZ.to_string (BigZ.abs m)) in
+    while String.length !d <= - e do d := "0" ^ !d done;
+    let k = String.length !d + e in
+    (if neg then "-" else "") ^ String.sub !d 0 k ^ "." ^ String.sub !d k (String.length !d - k)
+  end
+  else if e mod 2 = 0 then Printf.sprintf "%sE%d" (BigZ.to_string m) e
+  else if e > 0 then Printf.sprintf "%se+%d" (BigZ.to_string m) e
+  else Printf.sprintf "%se%d" (BigZ.to_string m) e
+let spell (m : M.z) (e : M.z) : char list = cs (spell_ml (z_of_coqz m) (BigZ.to_int (z_of_coqz e)))
+
 (* ---- printers *)
 let meta_sx (m : (char list * char list) list) = L (List.map (fun (k, v) -> L [qs k; qs v]) m)
 let script_sx (s : M.script) = L [A "script"; qs s.M.s_plain; qs s.M.s_template; meta_sx s.M.s_vars]
@@ -94,7 +109,7 @@ let decoded_sx (f : 'a -> Sexp.t) = function
   | M.Panic -> L [A "panic"]
 
 let bulk_data_sx = function
-  | M.BCreate w -> L [A "create"; decoded_sx request_sx (M.tx_to_core w)]
+  | M.BCreate w -> L [A "create"; decoded_sx request_sx (M.tx_to_core spell w)]
   | M.BAddMeta (t, i, m) -> L [A "addmeta"; qs t; json_sx i; meta_sx m]
   | M.BRevert (i, f, a, m) -> L [A "revert"; zout i; b01 f; b01 a; meta_sx m]
   | M.BDelMeta (t, i, k) -> L [A "delmeta"; qs t; json_sx i; qs k]
@@ -105,8 +120,8 @@ let () = register "apidec" (fun c ->
   | L [A "apidec"; A kind; j] ->
     let j = json_of j in
     (match kind with
-     | "v2tx" -> decoded_sx request_sx (M.decode_v2_tx parse_time j)
-     | "scriptv1" -> decoded_sx script_sx (M.decode_scriptv1 j)
+     | "v2tx" -> decoded_sx request_sx (M.decode_v2_tx parse_time spell j)
+     | "scriptv1" -> decoded_sx script_sx (M.decode_scriptv1 spell j)
      | "v1script" -> decoded_sx script_sx (M.decode_v1_script j)
      | "bulk" -> decoded_sx bulk_sx (M.decode_bulk parse_time j)
      | "meta" -> decoded_sx (fun m -> L [A "meta"; meta_sx m]) (M.dec_metadata j)
